@@ -17,6 +17,7 @@ PLAN = {
         ("c3x1", 2, "line", 1), ("c22", 2, "line", 1), ("c3", 3, "line", 1),
         ("x3x1", 2, "line", 1), ("x22", 2, "line", 1), ("x3", 16, "line", 1),
         ("c3p", 2, "line", 1), ("x3p", 2, "line", 1),
+        ("c8", 1, "line", 0), ("c8", 2, "line", 0), ("x8", 2, "line", 0),
         ("c3", 2, "instruction", 1),
         ("c3x1", 1, "line", 1),
     ],
@@ -26,6 +27,8 @@ PLAN = {
         (h, w, "line", 1) for h in ("c3p", "x3p", "x2x2p", "c3z") for w in (2, 3)
     ] + [
         (h, 2, "instruction", 1) for h in ("c3p", "x3p")
+    ] + [
+        ("c8", 1, "line", 1), ("c8", 2, "line", 1), ("x8", 1, "line", 1), ("x8", 2, "line", 1),
     ] + [
         (h, 2, "instruction", 1) for h in ("c3x1", "c22", "c2x2", "c3", "x3x1", "x22", "x2x2", "x3")
     ] + [
